@@ -145,6 +145,24 @@ type wrunner struct {
 	prevLen int
 	failed  bool
 	evs     []wev
+	// the caller's own list of extensions, handed over with SetExtensions(shared...) every time
+	// (also after a Reset or a trip through the pool): it stays the caller's
+	shared   []wsutil.SendExtension
+	sharedMS *wsflate.MessageState
+}
+
+// attach installs the message-state extension from the caller's list.
+func (r *wrunner) attach() {
+	if r.shared == nil {
+		r.sharedMS = &wsflate.MessageState{}
+		r.shared = []wsutil.SendExtension{r.sharedMS}
+	}
+	if len(r.shared) != 1 || r.shared[0] != wsutil.SendExtension(r.sharedMS) {
+		panic("the caller's extension list was modified by the writer")
+	}
+	r.sharedMS.SetCompressed(false)
+	r.ms = r.sharedMS
+	r.w.SetExtensions(r.shared...)
 }
 
 // resolve turns a relative size into bytes; sizes are capped so that a
@@ -263,8 +281,7 @@ func runWriter(sc wscenario) (evs []wev) {
 	r.w = newWriterFor(sc, d)
 	r.evs = append(r.evs, wev{Ev: "setup", Key: sc.Key, Kind: "writer", Side: sc.Side, Op: sc.Op, Size: r.w.Size(), Out: []vh.F{}})
 	if sc.Ext {
-		r.ms = &wsflate.MessageState{}
-		r.w.SetExtensions(r.ms)
+		r.attach()
 		r.evs = append(r.evs, wev{Ev: "SetExt", Compressed: false, Out: []vh.F{}})
 	}
 	return runOps(r, sc.Ops)
@@ -341,8 +358,7 @@ func runOps(r *wrunner, ops []wop) (evs []wev) {
 			r.w.DisableFlush()
 		case "SetExt":
 			if r.ms == nil {
-				r.ms = &wsflate.MessageState{}
-				r.w.SetExtensions(r.ms)
+				r.attach()
 			}
 			r.ms.SetCompressed(o.Arg == "1")
 			e.Compressed = o.Arg == "1"
